@@ -156,3 +156,29 @@ Theorem pmap_fault_inv_satisfiable : exists m s, MInv hf_demo m s /\ halloc (mta
   nth 0 (map (map nkey) (hbuckets (mtab m))) [] = [0; 2]%nat /\ length (live s) = 44%nat.
 Proof. exact MInv_satisfiable. Qed.
 Print Assumptions pmap_fault_inv_satisfiable.
+
+(* ------------------------------------------------------------------ the z0 modes of a vnadata_t (coq/Mem/DataZ0.v):
+   a resize or a z0 setter (conversion between the modes included: row vector, one row per allocated frequency, the
+   copy of the caller's vector) with any fault point completes with Done / EINVAL / ENOMEM and the invariant holds
+   afterwards: every live block is owned by the object (the copy and the rows allocated before the failure have been
+   released), every allocated frequency row has its z0 vector, the object can be used again and freed.
+   PARTIAL as for the other skeletons (equality with the fault-free result and the repeat are not theorems). *)
+Require Import LV.Mem.DataZ0 LV.Mem.DataZ0Proofs.
+
+Theorem vdataz_fault_clean_partial : forall op o s, OInv o s ->
+  exists o' out s', zstep ZFixed o op s = Ok ((o', out), s') /\ OInv o' s'.
+Proof. exact vdataz_fault_clean_lemma. Qed.
+Print Assumptions vdataz_fault_clean_partial.
+
+Theorem vdataz_fault_history : forall ops k os s', zhistory ZFixed ops (start (Some k)) = Ok (os, s') -> live s' = [].
+Proof. intros ops k; exact (vdataz_no_leak_lemma ops (Some k)). Qed.
+Print Assumptions vdataz_fault_history.
+
+Theorem vdataz_fault_history_no_fault : forall ops k f, zhistory ZFixed ops (start (Some k)) <> Fault f.
+Proof. intros ops k; exact (vdataz_no_fault_lemma ops (Some k)). Qed.
+Print Assumptions vdataz_fault_history_no_fault.
+
+Theorem vdataz_fault_inv_satisfiable : exists o s, OInv o s /\ perf (od o) = true /\ fal (od o) = 4%nat /\ ofr o = 2%nat /\ opt o = 2%nat /\
+  length (live s) = 12%nat.
+Proof. exact OInv_satisfiable. Qed.
+Print Assumptions vdataz_fault_inv_satisfiable.
